@@ -982,6 +982,22 @@ func (x *c16Runner) directionA(k *c16Case) {
 				continue
 			}
 		}
+		if !split {
+			hazardInt := false
+			for _, f := range k.Feats {
+				hazardInt = hazardInt || strings.HasPrefix(f, "int-")
+			}
+			x.ask([]string{"C16.jwt", tt, jt}, func(rep string) {
+				r.hist("A_model_jwt_" + strings.ReplaceAll(rep, " ", "_"))
+				// type-directed generated values have the shape of their parameter's type: the hypothesis
+				// of convert_wt must hold on them, and then the conversion is well-typed
+				if !hazardInt && !k.FromCorps && rep != "true true true" {
+					r.violate(Violation{Kind: "correspondence", Key: kk.key("A-hypothesis-jwt"),
+						What:  "the typing hypothesis of convert_wt (jWt, jIntsOk) or its conclusion (wt of the conversion) is false on a type-directed generated argument: " + rep,
+						Input: map[string]interface{}{"param": idS, "type": tt, "json": rawS}, Broken: "convert_wt"})
+				}
+			})
+		}
 		x.ask([]string{"C16.binding", sflag, tt, jt}, func(rep string) {
 			parts := strings.Split(rep, " | ")
 			model := parts[0]
